@@ -3,6 +3,8 @@ import VlsModel.Gen.WireSchema
 import VlsModel.Gen.FnMsgs
 import VlsModel.Gen.FnPsbt
 import VlsModel.Gen.BoltDerive
+import VlsModel.Gen.FnMsgsVec
+import VlsModel.Gen.FnMsgsIo
 import VlsModel.Lemmas.FnGen
 /-
 C19 — the frame length check of `vls-protocol/src/msgs.rs` tied to the source by rs2lean.
@@ -263,12 +265,187 @@ example : dispatchW { Gen.BoltDerive.readMessageWalk with armsInDeclarationOrder
   constructor <;> simp [dispatchW, Gen.BoltDerive.readMessageWalk, List.findIdx?_cons]
 
 
-/-- **C19_fn_streamed_new.** the sender side of a streamed PSBT (psbt.rs `StreamedPSBT::new`,
+/-- **C19_fn_streamed_new.** the sender side of a streamed PSBT (psbt.rs `StreamedPSBT::new`, `psbt()`,
     `PsbtWrapper::from`, regenerated in `Gen/FnPsbt.lean`): a fresh `StreamedPSBT` wraps the PSBT unchanged and carries
     *no* segwit flags — flags only ever come out of the decoder (`Streamed.decode`, `C19_psbt`), never from the sender -/
 theorem C19_fn_streamed_new (p : Gen.FnPsbt.Psbt) :
-    (Gen.FnPsbt.StreamedPSBT.new p).psbt.inner = p ∧
+    Gen.FnPsbt.StreamedPSBT.psbt_fn (Gen.FnPsbt.StreamedPSBT.new p) = p ∧
     (Gen.FnPsbt.StreamedPSBT.new p).segwit_flags = ([] : List Bool) ∧
     (Gen.FnPsbt.PsbtWrapper.from p).inner = p := ⟨rfl, rfl, rfl⟩
+
+/-! ## msgs.rs (round 9): `from_vec` and `message_name_from_vec` through rs2lean (`Gen/FnMsgsVec.lean`; `io::Cursor::new`,
+`from_reader` (generic reader: outside the subset, statement order checked by x_wireframe.py) and the macro-generated
+`Message::message_name` are declared externals) -/
+
+/-- **C19_fn_from_vec.** `msgs::from_vec(v)` is `from_reader(Cursor::new(v), v.len() as u32)`: the *whole* vector is the
+    reader and its length is the frame length — truncated to 32 bits by the `as` cast (the observation of round 8, now read
+    from the source); for every vector shorter than 2^32 bytes, in particular every message `C19_main` speaks about
+    (`≤ MAX_MESSAGE_SIZE`), the length is passed unchanged, so the model's `fromVec` (which takes `bs.length`) is exact. -/
+theorem C19_fn_from_vec {C : Type} (cnew : List Nat → C) (fr : C → Nat → Rs.M Gen.FnMsgsVec.Message) (v : List Nat) :
+    Gen.FnMsgsVec.from_vec cnew fr v = fr (cnew v) (v.length % 2 ^ 32) ∧
+    (v.length ≤ Gen.WireSchema.maxMessageSize → Gen.FnMsgsVec.from_vec cnew fr v = fr (cnew v) v.length) := by
+  have h : Gen.FnMsgsVec.from_vec cnew fr v = fr (cnew v) (v.length % 2 ^ 32) := by
+    simp [Gen.FnMsgsVec.from_vec, Rs.utrunc, Rs.U32_MAX]
+  refine ⟨h, fun hle => ?_⟩
+  have : v.length < 2 ^ 32 := by
+    have : Gen.WireSchema.maxMessageSize < 2 ^ 32 := by decide
+    omega
+  rw [h, Nat.mod_eq_of_lt this]
+
+/-- **C19_fn_message_name_from_vec.** the message name used in logs: fewer than two bytes → `"ShortRead"`, otherwise the
+    name of the big-endian `u16` made of the first two bytes — the same type prefix `as_vec` writes (`C19_gen_as_vec`) -/
+theorem C19_fn_message_name_from_vec (name : Nat → String) (v : List Nat) :
+    Gen.FnMsgsVec.message_name_from_vec name v
+      = (match v with
+         | a :: b :: _ => .ok (name (Rs.fromBeBytes [a, b]))
+         | _ => .ok "ShortRead") := by
+  match v with
+  | [] => rfl
+  | [_] => rfl
+  | a :: b :: r =>
+    have : ¬ (r.length + 1 + 1 < 2) := by omega
+    simp [Gen.FnMsgsVec.message_name_from_vec, Rs.index, this]
+
+/-! ## msgs.rs (round 9): the writers and readers over a generic `&mut W: Write` / `&mut R: Read` (`Gen/FnMsgsIo.lean`)
+
+rs2lean now threads an opaque `&mut` parameter through declared *receiver-updating* externals (`write_all` returns the new
+writer, `read_uN_be` the pair (new reader, value); `r.read_exact(&mut buf)?` is normalised to the assignment of the next
+`buf.len()` bytes).  Translated: `write_vec`, `write_serial_request_header`, `write_serial_response_header`,
+`read_serial_request_header`, `read_serial_response_header`, `read_raw`.  The theorems instantiate the writer by the bytes
+written so far and the reader by the bytes still to come, and prove the round trips *between the generated functions*. -/
+section MsgsIo
+open VlsModel.Gen.FnMsgsIo
+
+/-- a writer is the bytes written so far; `write_all` appends and never fails -/
+def wAll (w : List Nat) (b : List Nat) : Rs.M (List Nat) := .ok (w ++ b)
+
+/-- a reader is the bytes still to come; `read_exact` of `n` bytes takes them or fails (EOF) -/
+def rExact (r : List Nat) (n : Nat) : Rs.M (List Nat × List Nat) :=
+  if n ≤ r.length then .ok (r.drop n, r.take n) else .error (.err "Error::Io")
+
+/-- `read_uN_be`: `n` bytes, big endian -/
+def rBe (n : Nat) (r : List Nat) : Rs.M (List Nat × Nat) :=
+  if n ≤ r.length then .ok (r.drop n, Rs.fromBeBytes (r.take n)) else .error (.err "Error::Io")
+
+theorem be2 (x : Nat) : Rs.toBeBytes 2 x = [x / 256 % 256, x % 256] := by
+  simp [Rs.toBeBytes, List.range, List.range.loop, Nat.shiftRight_eq_div_pow]
+
+theorem be4 (x : Nat) : Rs.toBeBytes 4 x = [x / 16777216 % 256, x / 65536 % 256, x / 256 % 256, x % 256] := by
+  simp [Rs.toBeBytes, List.range, List.range.loop, Nat.shiftRight_eq_div_pow]
+
+/-- **C19_fn_write_vec.** the generated `write_vec`: the length as a big-endian `u32` (`buf.len() as u32`), then the
+    bytes — exactly two `write_all` calls in this order -/
+theorem C19_fn_write_vec (w buf : List Nat) :
+    write_vec wAll w buf = .ok (w ++ Rs.toBeBytes 4 (buf.length % 2 ^ 32) ++ buf) := by
+  simp [write_vec, wAll, Rs.utrunc, Rs.U32_MAX]
+
+/-- **C19_fn_read_raw_write_vec.** `read_raw` reads back what `write_vec` wrote and leaves the stream at the next frame, for
+    every buffer shorter than 2^32 bytes (both regenerated from msgs.rs; the reader is `read_u32_be` then `read_exact` of
+    that many bytes) -/
+theorem C19_fn_read_raw_write_vec (buf rest : List Nat) (hb : buf.length < 2 ^ 32) :
+    (do let s ← write_vec wAll [] buf; read_raw (rBe 4) rExact (s ++ rest)) = .ok (rest, buf) := by
+  have hm : buf.length % 2 ^ 32 = buf.length := Nat.mod_eq_of_lt hb
+  have hv : Rs.fromBeBytes [buf.length / 16777216 % 256, buf.length / 65536 % 256, buf.length / 256 % 256, buf.length % 256]
+      = buf.length := by
+    simp [Rs.fromBeBytes]; omega
+  have h4 : 4 ≤ buf.length + 1 + 1 + 1 + 1 + rest.length := by omega
+  have hl : buf.length ≤ (buf ++ rest).length := by simp
+  simp only [C19_fn_write_vec, hm, be4, read_raw, rBe, rExact, Rs.vecResize, Rs.bind_ok, List.nil_append, List.append_assoc,
+    List.cons_append, List.length_cons, List.length_append, List.take, List.drop, hv, h4, if_true, List.length_nil,
+    List.take_nil, List.length_replicate, Nat.sub_zero, Nat.zero_add]
+  simp [hl]
+
+/-- **C19_fn_serial_response_roundtrip.** the serial response header: the generated reader accepts exactly what the
+    generated writer wrote for the expected sequence number and leaves the stream behind the header; another sequence
+    number or another magic is `BadFraming` -/
+theorem C19_fn_serial_response_roundtrip (seq seq' : Nat) (rest : List Nat) (hs : seq < 65536) (hs' : seq' < 65536) :
+    (do let s ← write_serial_response_header wAll [] seq; read_serial_response_header (rBe 2) (s ++ rest) seq') =
+      (if seq = seq' then .ok rest else .error (.err "Error::BadFraming")) := by
+  have hv : Rs.fromBeBytes [seq / 256 % 256, seq % 256] = seq := by simp [Rs.fromBeBytes]; omega
+  by_cases h : seq = seq'
+  · subst h
+    have h2 : 2 ≤ 4 + rest.length := by omega
+    have hm : Rs.fromBeBytes [90, 165] = 23205 := by decide
+    simp [write_serial_response_header, read_serial_response_header, wAll, rBe, be2, hv, h2, hm]
+  · have h2 : 2 ≤ 4 + rest.length := by omega
+    have hm : Rs.fromBeBytes [90, 165] = 23205 := by decide
+    simp [write_serial_response_header, read_serial_response_header, wAll, rBe, be2, hv, h, Rs.fail, h2, hm]
+
+theorem be8 (x : Nat) : Rs.toBeBytes 8 x = [x / 72057594037927936 % 256, x / 281474976710656 % 256, x / 1099511627776 % 256,
+    x / 4294967296 % 256, x / 16777216 % 256, x / 65536 % 256, x / 256 % 256, x % 256] := by
+  simp [Rs.toBeBytes, List.range, List.range.loop, Nat.shiftRight_eq_div_pow]
+
+theorem rBe_append (n : Nat) (a rest : List Nat) (ha : a.length = n) :
+    rBe n (a ++ rest) = .ok (rest, Rs.fromBeBytes a) := by
+  subst ha
+  simp [rBe]
+
+theorem rExact_append (a rest : List Nat) : rExact (a ++ rest) a.length = .ok (rest, a) := by
+  simp [rExact]
+
+theorem toBeBytes_length (n x : Nat) : (Rs.toBeBytes n x).length = n := by simp [Rs.toBeBytes]
+
+theorem from_to_be2 (x : Nat) (h : x < 65536) : Rs.fromBeBytes (Rs.toBeBytes 2 x) = x := by
+  rw [be2]; simp [Rs.fromBeBytes]; omega
+
+theorem from_to_be8 (x : Nat) (h : x < 2 ^ 64) : Rs.fromBeBytes (Rs.toBeBytes 8 x) = x := by
+  rw [be8]; simp [Rs.fromBeBytes]; omega
+
+/-- **C19_fn_serial_request_roundtrip.** the serial request header (magic `0xaa55`, sequence, 33-byte peer id, dbid): the
+    generated reader returns exactly the header the generated writer was given and leaves the stream behind it -/
+theorem C19_fn_serial_request_roundtrip (h : SerialRequestHeader) (rest : List Nat) (hs : h.sequence < 65536)
+    (hp : h.peer_id.length = 33) (hd : h.dbid < 2 ^ 64) :
+    (do let s ← write_serial_request_header wAll [] h
+        read_serial_request_header (rBe 2) rExact (rBe 8) (s ++ rest)) = .ok (rest, h) := by
+  obtain ⟨sq, pid, db⟩ := h
+  simp only at hs hp hd
+  have hw : write_serial_request_header wAll [] ⟨sq, pid, db⟩
+      = .ok (Rs.toBeBytes 2 43605 ++ (Rs.toBeBytes 2 sq ++ (pid ++ Rs.toBeBytes 8 db))) := by
+    simp [write_serial_request_header, wAll]
+  have e1 := rBe_append 2 (Rs.toBeBytes 2 43605) (Rs.toBeBytes 2 sq ++ (pid ++ (Rs.toBeBytes 8 db ++ rest))) (toBeBytes_length _ _)
+  have e2 := rBe_append 2 (Rs.toBeBytes 2 sq) (pid ++ (Rs.toBeBytes 8 db ++ rest)) (toBeBytes_length _ _)
+  have e3 := rExact_append pid (Rs.toBeBytes 8 db ++ rest)
+  have e4 := rBe_append 8 (Rs.toBeBytes 8 db) rest (toBeBytes_length _ _)
+  rw [hp] at e3
+  simp only [hw, Rs.bind_ok, List.append_assoc, read_serial_request_header, e1, from_to_be2 43605 (by decide)]
+  simp [e2, from_to_be2 sq hs, e3, e4, from_to_be8 db hd]
+
+def toNb (b : Bytes) : List Nat := b.map UInt8.toNat
+theorem toNb_beBytes4 (n : Nat) : toNb (beBytes 4 n) = Rs.toBeBytes 4 n := by
+  simp [toNb, beBytes, be4]
+  omega
+theorem be4_mod (n : Nat) : Rs.toBeBytes 4 (n % 2 ^ 32) = Rs.toBeBytes 4 n := by
+  rw [be4, be4]; simp; omega
+/-- **C19_fn_write_vec_model.** the model's `writeVec` (what `C19_framed` is about) is the generated `write_vec` run on an
+    empty writer -/
+theorem C19_fn_write_vec_model (bs : Bytes) : write_vec wAll [] (toNb bs) = .ok (toNb (writeVec bs)) := by
+  rw [C19_fn_write_vec]
+  have h1 := toNb_beBytes4 bs.length
+  have h2 : Rs.toBeBytes 4 (bs.length % 2 ^ 32) = Rs.toBeBytes 4 bs.length := be4_mod _
+  have hl : (toNb bs).length = bs.length := by simp [toNb]
+  simp only [writeVec, hl, h2, List.nil_append]
+  simp only [toNb, List.map_append] at h1 ⊢
+  rw [h1]
+
+theorem toNb_beBytes2 (n : Nat) : toNb (beBytes 2 n) = Rs.toBeBytes 2 n := by
+  simp [toNb, beBytes, be2]
+theorem toNb_beBytes8 (n : Nat) : toNb (beBytes 8 n) = Rs.toBeBytes 8 n := by
+  simp [toNb, beBytes, be8]
+  omega
+/-- **C19_fn_write_serial_model.** the model's `writeSerialRequest` / `writeSerialResponse` (`C19_serial_request`,
+    `C19_serial_response`) are the generated writers run on an empty writer -/
+theorem C19_fn_write_serial_model (seq dbid : Nat) (peer : Bytes) :
+    write_serial_request_header wAll [] ⟨seq, toNb peer, dbid⟩ = .ok (toNb (writeSerialRequest seq peer dbid)) ∧
+    write_serial_response_header wAll [] seq = .ok (toNb (writeSerialResponse seq)) := by
+  have a := toNb_beBytes2 0xaa55
+  have b := toNb_beBytes2 seq
+  have c := toNb_beBytes8 dbid
+  have d := toNb_beBytes2 0x5aa5
+  simp only [toNb, List.map_append] at a b c d
+  constructor
+  · simp [write_serial_request_header, wAll, writeSerialRequest, toNb, a, b, c]
+  · simp [write_serial_response_header, wAll, writeSerialResponse, toNb, d, b]
+
+end MsgsIo
 
 end VlsModel.Props.C19Fn
